@@ -48,7 +48,7 @@ func runC16(c *Ctx) {
 	c.Rule("C16.fail", "dial: a path that calls remove does so under m.mu together with a store of a non-nil c.err and never stores c.c; a path without remove stores c.c and not c.err. Connection: c.err != nil => returns (nil, empty function literal, c.err); success => returns (c.c, c.done(m), nil)")
 	c.Rule("C16.release", "done allocates a fresh sync.Once per call and the returned function only calls once.Do(body); body: under m.mu, ref = ref-1, remove(c.id) iff the test on ref is true at 0 and false at 1")
 	c.Rule("C16.close-owner", "(*grpc.ClientConn).Close is called only in Manager.remove; remove is called only from dial and the release body; every path of remove deletes the map entry and closes at most once")
-	c.Rule("C16.mgr-pairing", "manager.monitor: after createConn succeeds the release function is deferred before subscribe is called; on failure it returns without subscribing")
+	c.Rule("C16.mgr-pairing", "manager.monitor: after createConn succeeds the release function it returned runs after subscribe on every returning path (deferred, or called explicitly once subscribe is back); on failure it returns without subscribing")
 	ctxFlow(c, "C16.dial-ctx")
 
 	// ---- locked
@@ -296,12 +296,35 @@ func runC16(c *Ctx) {
 				}
 				return false, false
 			}}
-			e.Run(dial)
-			c.Paths += len(e.Paths)
+			// dial(c, attempt func() ...) with the attempt handed over at the `go` site: analysed as called there
+			var allPaths []Path
+			hasFnParam := false
+			for _, pp := range dial.Params {
+				if _, isSig := pp.Type().Underlying().(*types.Signature); isSig {
+					hasFnParam = true
+				}
+			}
+			if hasFnParam {
+				for _, f := range P.PkgFuncs("connection") {
+					if P.InTestFile(f) {
+						continue
+					}
+					for _, ci := range callsIn(f) {
+						if staticCallee(ci.Common()) == dial {
+							e.RunAt(dial, ci)
+							allPaths = append(allPaths, e.Paths...)
+						}
+					}
+				}
+			} else {
+				e.Run(dial)
+				allPaths = e.Paths
+			}
+			c.Paths += len(allPaths)
 			c.Scen++
 			n := 0
-			for i := range e.Paths {
-				p := &e.Paths[i]
+			for i := range allPaths {
+				p := &allPaths[i]
 				di := -1
 				for j := range p.Trace {
 					if ci, ok := p.Trace[j].In.(*ssa.Call); ok && isDialCall(ci) != nil {
@@ -606,7 +629,7 @@ func runC16(c *Ctx) {
 				Bool: map[string]bool{"CERR": fail},
 			}
 			e := &PPA{Cond: at.Cond, Watch: func(ev *Ev) bool {
-				return ev.Label == "call:"+fnName(cc) || ev.Label == "call:"+fnName(sub) || (ev.Deferred && ev.Fn.V != nil)
+				return ev.Label == "call:"+fnName(cc) || ev.Label == "call:"+fnName(sub) || (strings.HasPrefix(ev.Label, "call:dyn") && ev.Fn.V != nil)
 			}}
 			e.Run(mon)
 			c.Paths += len(e.Paths)
@@ -622,7 +645,7 @@ func runC16(c *Ctx) {
 				si := p.Index(0, lbl("call:"+fnName(sub)))
 				rel := p.Index(0, func(ev *Ev) bool {
 					ex, ok := ev.Fn.V.(*ssa.Extract)
-					return ev.Deferred && ok && ex.Index == 1 && ex.Tuple == ssa.Value(p.Trace[ci].In.(*ssa.Call))
+					return ok && ex.Index == 1 && ex.Tuple == ssa.Value(p.Trace[ci].In.(*ssa.Call))
 				})
 				if fail {
 					c.Check(si < 0, "C16.mgr-pairing", fnName(mon), "dial failed: no subscribe", P.Pos(mon.Pos()), "path: "+p.String())
